@@ -29,6 +29,7 @@ TReset == Is("Reset") /\ l' = l + 1 /\ persisted' = "none" /\ iat' = {} /\ adv' 
 TCompleted == /\ Is("Completed") /\ l' = l + 1
               /\ LET e == Trace[l] IN
                    /\ (persisted # "none") => e.id = persisted
+                   /\ e.adv_iat = e.iat                    \* the advertised args carry the presented IAT mode
                    /\ IF e.ov # "" THEN e.iat = e.ov
                       ELSE (iat # {} => e.iat \in iat)
                    /\ persisted' = e.id
